@@ -34,7 +34,11 @@ const rule = "case = rapid-drawn (engine configuration with a 256 B - 4 KiB memt
 	"monotonic invoke/return times; oracle = porcupine linearizability per key against a register (failed writes have no effect) " +
 	"over the concurrent calls + a quiescent read of every key + a read of every key after close and reopen; " +
 	"non-trivial = at least one log rotation AND one memtable flush completed while >= 2 clients had a call in flight " +
-	"(measured by a trace handler); distinct by FNV-64 of the case JSON"
+	"(measured by a trace handler); distinct by FNV-64 of the case JSON. Second sub-check (hot neighbour): one writer inserts " +
+	"300-3000 fresh keys that sort immediately before/after/around a target key and rewrites the target every 1-100 inserts while " +
+	"2-8 readers get the target without pause (optional flushing goroutine); oracle = single-writer register: a get returns a " +
+	"round between the one acknowledged before it began and the one issued when it ended, never not-found; non-trivial = " +
+	">= 200 gets and >= 3 rounds of the target in the case"
 
 func TestMain(m *testing.M) {
 	ev.Silence()
@@ -81,6 +85,7 @@ type Doc struct {
 	Mode     string   `json:"mode"` // "history": the recorded history is re-checked; "rerun": the workload is executed again Runs times
 	Runs     int      `json:"runs,omitempty"`
 	Case     Case     `json:"case"`
+	Hot      *HotCase `json:"hot,omitempty"` // mode "hot": the second sub-check (hot_test.go)
 	Verdict  *Verdict `json:"verdict,omitempty"`
 	Stats    *Stats   `json:"stats,omitempty"`
 	History  []Rec    `json:"history,omitempty"`
@@ -612,6 +617,10 @@ func TestReplay(t *testing.T) {
 	var d Doc
 	if err := json.Unmarshal(b, &d); err != nil {
 		t.Fatal(err)
+	}
+	if d.Mode == "hot" && d.Hot != nil {
+		replayHot(f, &d)
+		return
 	}
 	if d.Mode == "rerun" {
 		runs := d.Runs
